@@ -71,7 +71,7 @@ class C05(Prop):
         "mnemonic_case='preserve' is used so that tags compare literally; values are compared numerically when numeric",
         "section titles of custom sections start with a letter other than V/W/C/P/O/A in either case and contain no '_'",
     ]
-    quick = {"runs": 5000, "wall": 40}
+    quick = {"runs": 40000, "wall": 60}
     thorough = {"runs": 300000, "wall": 900}
 
     def gen(self, st, tier, index):
